@@ -829,6 +829,66 @@ func resumeNotLost(run *evid.Run, lane, rounds int) {
 	run.Distinct("stress/resume-not-lost")
 }
 
+// failedCommitVersusCancel: commits that fail (wrong digest; a session that is already poisoned) run
+// against Cancel, Size and a resume of the same session. The failure path of Commit touches the
+// session's sticky error; the race detector is the oracle, plus: once Cancel has returned, no Commit
+// succeeds and nothing is stored.
+func failedCommitVersusCancel(run *evid.Run, round int) {
+	reg := ocimem.New()
+	content := []byte(fmt.Sprintf("never committed %d", round))
+	w, err := reg.PushBlobChunked(bg, "fc", 0)
+	if err != nil {
+		run.Inconclusive("failed-commit-versus-cancel setup: " + err.Error())
+		return
+	}
+	w.Write(content)
+	id := w.ID()
+	good := ociregistry.Digest(model.Digest(content))
+	wrong := ociregistry.Digest(model.Digest([]byte("something else")))
+	var wg sync.WaitGroup
+	start := make(chan struct{})
+	for g := 0; g < 2; g++ {
+		wg.Add(1)
+		go func() {
+			defer wg.Done()
+			<-start
+			for i := 0; i < 6; i++ {
+				w.Commit(wrong)
+			}
+		}()
+	}
+	wg.Add(2)
+	go func() {
+		defer wg.Done()
+		<-start
+		for i := 0; i < round%4; i++ {
+			runtime.Gosched()
+		}
+		w.Cancel()
+	}()
+	go func() {
+		defer wg.Done()
+		<-start
+		for i := 0; i < 4; i++ {
+			w.Size()
+			if w2, err := reg.PushBlobChunkedResume(bg, "fc", id, -1, 0); err == nil {
+				w2.Size()
+			}
+		}
+	}()
+	close(start)
+	wg.Wait()
+	run.Eval(1)
+	run.Count("failed_commit_versus_cancel_rounds", 1)
+	run.Distinct("stress/failed-commit-versus-cancel")
+	if _, err := w.Commit(good); err == nil {
+		run.Violation("failed-commit-versus-cancel/commit-after-cancel", "Commit with the right digest succeeded on a session whose Cancel had returned (and whose earlier commits had failed)", map[string]any{"round": round})
+	}
+	if _, err := reg.ResolveBlob(bg, "fc", good); err == nil {
+		run.Violation("failed-commit-versus-cancel/blob-stored", "a blob is stored although every commit of its session failed or followed a Cancel", map[string]any{"round": round})
+	}
+}
+
 // ---------- 4. race stress
 
 func stressDirect(run *evid.Run, round int, reg ociregistry.Interface, mode string, nG, nOps int) {
@@ -1041,6 +1101,10 @@ func main() {
 		commitVersusResume(run, r)
 	}
 	run.FloorCounter("commit_versus_resume_rounds", 40)
+	for r, n := 0, run.N(600, 20000); r < n; r++ {
+		failedCommitVersusCancel(run, r)
+	}
+	run.FloorCounter("failed_commit_versus_cancel_rounds", 600)
 	{
 		var wg sync.WaitGroup
 		for lane := 0; lane < 6; lane++ {
